@@ -2,11 +2,14 @@
    Proofs.MorganProofs.  What is a theorem here: the atom ranking `_morgan` / `Morgan.atoms_order` (the weights the
    canonical writer orders atoms by) is a function of the structure alone, for ANY hash function h (no assumption about
    collisions): renumbering, insertion order of atoms / adjacency rows / neighbours.  Equality and hash coherence of
-   Smiles.__eq__/__hash__ over an opaque canonical string.  The writer (`_smiles`, C02) and the stereo refinement
-   (`_chiral_morgan`) are NOT covered by theorems: correspondence + search in harness/checks/C01.py. *)
+   Smiles.__eq__/__hash__ over an opaque canonical string.  About the writer model (Model.Writer, `_smiles`) only the first
+   steps towards `smiles_invariant_discrete` are theorems (section "writer" below: with injective weights the start atom
+   and the order of the children of every DFS node are decided by the weights alone and are mapped by a renumbering); the
+   full statement is the Prop Proofs.WriterInvProofs.smiles_invariant_discrete_goal and is NOT proved.  The stereo
+   refinement (`_chiral_morgan`) is not covered by theorems: search in harness/checks/C01.py. *)
 From Coq Require Import ZArith List Bool Permutation Sorting.Sorted String.
-From Model Require Import PyBase PyHash Graph Morgan.
-From Proofs Require Import MorganProofs.
+From Model Require Import PyBase PyHash Graph Morgan Writer.
+From Proofs Require Import MorganProofs WriterInvProofs.
 Import ListNotations.
 Open Scope Z_scope.
 
@@ -119,3 +122,58 @@ Theorem C01_example_nonvacuous :
   atoms_order hash_ztuple ex_ring ex_g' = Ok [(9, 1); (7, 2); (8, 3)].
 Proof. exact example_nonvacuous. Qed.
 Print Assumptions C01_example_nonvacuous.
+
+(* ---- writer (Model.Writer): partial results towards smiles_invariant_discrete ---- *)
+(* Python's sorted(set, key=...) in the model: when the key separates the members, the iteration order of the set is
+   irrelevant *)
+Theorem C01_sorted_by_key_canonical : forall (A : Type) (key : A -> list Z) (l l' : list A),
+  (forall x y, In x l -> In y l -> key x = key y -> x = y) -> Permutation l l' -> sort_by key l = sort_by key l'.
+Proof. exact @sort_by_canonical. Qed.
+Print Assumptions C01_sorted_by_key_canonical.
+
+(* `start = min(atoms_set, key=mod_weights_start)`: with weights injective on the atoms neither the tie-break priority
+   (the stand-in for CPython's set iteration order) nor the order in which the candidates are listed matters.
+   _partial: one step of smiles_invariant_discrete (missing: BFS labels, DFS bookkeeping, closure numbers, tokens, stereo marks) *)
+Theorem C01_smiles_invariant_discrete_partial_start : forall (w : Z -> Z) (o : opts) (all : list Z), inj_on all w ->
+  forall (tb tb' : Z -> Z) (l l' : list Z), incl l all -> Permutation l l' ->
+  min_by (key_start w tb o all) l = min_by (key_start w tb' o all) l'.
+Proof. exact start_atom_weights_only. Qed.
+Print Assumptions C01_smiles_invariant_discrete_partial_start.
+
+(* `sorted(bonds[child].keys() - {parent}, key=mod_weights)`: the same for the children of every DFS node *)
+Theorem C01_smiles_invariant_discrete_partial_children : forall (w : Z -> Z) (o : opts) (all : list Z), inj_on all w ->
+  forall (tb tb' : Z -> Z) (seen : list (Z * Z)) (l l' : list Z), incl l all -> Permutation l l' ->
+  sort_by (key_child w tb o all seen) l = sort_by (key_child w tb' o all seen) l'.
+Proof. exact children_order_weights_only. Qed.
+Print Assumptions C01_smiles_invariant_discrete_partial_children.
+
+(* renumbering (s is injective on the atoms as a consequence of the two hypotheses): the start atom of the renumbered
+   molecule is the image of the start atom ... *)
+Theorem C01_smiles_invariant_discrete_partial_start_equivariant :
+  forall (w w' : Z -> Z) (o : opts) (all : list Z) (s : Z -> Z),
+  inj_on all w -> (forall n, In n all -> w' (s n) = w n) ->
+  forall (tb tb' : Z -> Z) (l l' : list Z), incl l all -> Permutation (map s l) l' ->
+  min_by (key_start w' tb' o (map s all)) l' = option_map s (min_by (key_start w tb o all) l).
+Proof. exact start_atom_equivariant. Qed.
+Print Assumptions C01_smiles_invariant_discrete_partial_start_equivariant.
+
+(* ... and the children of every DFS node are visited in the image of the original order (seen' = BFS labels of the
+   renumbered molecule) *)
+Theorem C01_smiles_invariant_discrete_partial_children_equivariant :
+  forall (w w' : Z -> Z) (o : opts) (all : list Z) (s : Z -> Z),
+  inj_on all w -> (forall n, In n all -> w' (s n) = w n) ->
+  forall (tb tb' : Z -> Z) (seen seen' : list (Z * Z)) (l l' : list Z), incl l all -> Permutation (map s l) l' ->
+  (forall n, In n all -> zget seen' (s n) = zget seen n) ->
+  sort_by (key_child w' tb' o (map s all) seen') l' = map s (sort_by (key_child w tb o all seen) l).
+Proof. exact children_order_equivariant. Qed.
+Print Assumptions C01_smiles_invariant_discrete_partial_children_equivariant.
+
+(* non-vacuity of the hypotheses above: four atoms, injective weights, renumbering n -> 2n+10, other tie-breaks and orders *)
+Theorem C01_writer_keys_example :
+  inj_on exw_all exw_w /\ inj_on exw_all exw_s /\ (forall n, In n exw_all -> exw_w' (exw_s n) = exw_w n) /\
+  min_by (key_start exw_w (fun n => n) default_opts exw_all) [1; 2; 3; 4] = Some 4 /\
+  min_by (key_start exw_w' (fun n => - n) default_opts (map exw_s exw_all)) [14; 18; 12; 16] = Some 18 /\
+  sort_by (key_child exw_w (fun n => n) default_opts exw_all []) [1; 2; 3] = [3; 2; 1] /\
+  sort_by (key_child exw_w' (fun n => n) default_opts (map exw_s exw_all) []) [12; 16; 14] = [16; 14; 12].
+Proof. exact writer_keys_example. Qed.
+Print Assumptions C01_writer_keys_example.
